@@ -34,11 +34,13 @@ def run(chk):
     e3.run_L4(chk)
     e3.run_I2(chk)
     e3.run_I3(chk)
+    e3.run_I4(chk)
     e3.run_B(chk)
     e3.run_V1(chk)
 
 
 MUTANTS = [
+    ("unfuse counts in native order", "yastn/tensor/_merging.py", "        nlegs = [nlegs[hi] for hi in axes_hf]  # axes_mf and axes_uf follow the order of tensor legs\n", "        nlegs = [nlegs[hi] for hi in sorted(axes_hf)]\n", "I4"),
     ("qr Qhfs from meta axes", "yastn/tensor/linalg.py", "    Qhfs = tuple(a.hfs[ii] for ii in out_hl) + (_Fusion(s=(sQ,)),)", "    Qhfs = tuple(a.hfs[ii] for ii in out_ml) + (_Fusion(s=(sQ,)),)", "L1"),
     ("broadcast forgets trans", "yastn/tensor/_contractions.py", "        ax = sum(b.mfs[ii][0] for ii in range(ax))  # unpack mfs\n        ax = b.trans[ax]  # transpose\n        if b.hfs[ax].tree != (1,):\n            raise YastnError('Second tensor`s leg specified in axes cannot be fused.')",
      "        ax = sum(b.mfs[ii][0] for ii in range(ax))  # unpack mfs\n        if b.hfs[ax].tree != (1,):\n            raise YastnError('Second tensor`s leg specified in axes cannot be fused.')", "L1"),
@@ -52,6 +54,7 @@ MUTANTS = [
     ("get_legs native path skips trans", "yastn/tensor/_output.py", "            nax, = _unpack_axes(a.mfs, (ax,))\n\n        nax = tuple(a.trans[ax] for ax in nax)", "            nax, = _unpack_axes(a.mfs, (ax,))\n            nax = tuple(a.trans[ax] for ax in nax)", "L1"),
 ]
 BENIGN = [
+    ("unfuse counts via tuple comprehension", "yastn/tensor/_merging.py", "        nlegs = [nlegs[hi] for hi in axes_hf]  # axes_mf and axes_uf follow the order of tensor legs\n", "        nlegs = tuple(nlegs[hi] for hi in axes_hf)\n"),
     ("materialise first", "yastn/tensor/_contractions.py", "    in_0, in_1 = _clear_axes(*axes)  # contracted legs\n    if set(in_0) & set(in_1):", "    in_0, in_1 = _clear_axes(*axes)  # contracted legs\n    in_0, in_1 = tuple(in_0), tuple(in_1)\n    if set(in_0) & set(in_1):"),
     ("rename locals in drop_leg_history", "yastn/tensor/_single.py", "    uaxes, = _unpack_axes(a.mfs, axes)\n    uaxes = tuple(a.trans[ax] for ax in uaxes)\n    hfs = tuple(_Fusion(s=(a.struct.s[n],)) if n in uaxes else a.hfs[n] for n in range(a.ndim_n))",
      "    laxes, = _unpack_axes(a.mfs, axes)\n    naxes = tuple(a.trans[ax] for ax in laxes)\n    hfs = tuple(_Fusion(s=(a.struct.s[n],)) if n in naxes else a.hfs[n] for n in range(a.ndim_n))"),
